@@ -19,8 +19,9 @@ CASE = {'Sub': 'd', 'Sub/A.txt': 'f', 'Sub/b.txt': 'f', 'sub': 'd', 'sub/a.txt':
 DEEP2 = {'a': 'd', 'a/r': 'd', 'a/r/t': 'f', 'a/lr': ('l', 'r'), 'a/r/up': ('l', '../..'), 'top': 'f', 'a/r/.dot': 'd', 'a/r/.dot/in': 'f', 'a/sib': 'd', 'a/sib/lt': ('l', '../r/t')}
 ACYCLIC = {'a': 'd', 'a/r': 'd', 'a/r/t': 'f', 'a/lr': ('l', 'r'), 'a/sib': 'd', 'a/sib/lt': ('l', '../r/t'), 'a/r/lk': ('l', '../sib'), 'd': 'd', 'd/ls': ('l', '../a/sib'), 'd/y': 'f',
            'a/sib/y': 'f', '.hl': ('l', 'a')}
+ODD = {'x\\y': 'f', 'x': 'd', 'x/y': 'f', 'q\\': 'd', 'q\\/z': 'f', 'y': 'f', 'a*b': 'f', 'a[b]': 'f', 'axb': 'f', '{a,b}': 'f', 'a|b': 'd', 'a|b/!c': 'f', '-n': 'f', '~': 'f', 'x\\': 'd', 'x\\/y': 'f'}
 EMPTY = {}
-NAMED = {'basic': BASIC, 'links': LINKS, 'nested': NESTED, 'case': CASE, 'deep2': DEEP2, 'acyclic': ACYCLIC}
+NAMED = {'basic': BASIC, 'links': LINKS, 'nested': NESTED, 'case': CASE, 'deep2': DEEP2, 'acyclic': ACYCLIC, 'odd': ODD}
 
 
 def is_cyclic(spec):
